@@ -395,6 +395,14 @@ CLAIMS["C13"]["text"] += (" Inexact unit-vector components must come back within
                           "triangle.")
 CLAIMS["C14"]["text"] += " A block referenced twice below the shape is a further source; sub-graphs are compared as unfolded trees."
 
+CLAIMS["C10"]["text"] += (" PartApi.tla models the partition API as a machine: TLC enumerates every history of up to L calls (read + relabel "
+                          "by pattern + SetShapePartitions, UpdateSkinPartitions, RemoveEmptyPartitions, DeleteVertsForShape, save + load, "
+                          "GetShapePartitions); each history runs on real shapes in FO3, SK and SSE and TLC folds the abstract labels and body "
+                          "parts over the logged calls and judges every observation (labels up to renumbering, body parts follow their "
+                          "triangles, full invariants after a rebuild and after a reload in a fresh state).")
+CLAIMS["C10"]["technique"] = CLAIMS["C10"].get("technique", "") and (CLAIMS["C10"]["technique"] + "; TLC-enumerated call histories of the partition API replayed on the implementation")
+CLAIMS["C01"]["text"] += " The sweep settings are the union of what the current and the pinned reference build find."
+
 def main():
     props = [json.loads(l) for l in open(os.path.join(ROOT, "properties.jsonl"))]
     commits = subprocess.run(["git", "-C", "/repo", "log", "--format=%H %s", "32497ec..HEAD"], stdout=subprocess.PIPE).stdout.decode().splitlines()
